@@ -75,6 +75,11 @@ CHECKS = {
    "Every generated description (all type constructors to depth 4, empty and non-empty lists, comments at interface / member / direct field / parameter / variant level) is rendered by zlink, parsed back and compared through the public accessors with the generating tree, re-rendered (must reproduce the text), and sent as an InterfaceDescription reply that the client side receives and parses to the same tree; the library's org.varlink.service description is included. Cases matching the known finding enum-variant-comment-render are attributed to it only if they pass once the variant comments are removed.",
    "Trusted: the harness's own tree / conversion through public accessors (shared with C13). Legal comment text = no line break, no leading blank, no carriage return. Comments inside inline types are not generated (not listed by the statement).",
    "§3 C14"),
+ "C15": ("exploration", "corpus15",
+   "generated-program testing through the whole tool chain: a seeded generator emits IDL trees (names with acronyms, digits, camelCase / snake_case / kebab spellings, Rust keywords; every type constructor; non-recursive, collision-free), zlink parses the rendered text, zlink_codegen (as a library) generates a Rust module, which is compiled against /repo together with a harness-written driver and run against a scripted socket; oracle = call frames, reply / error / custom-type round trips computed from the IDL tree; known-finding lane with witness",
+   "40 (thorough 300) generated interfaces: each generated module must compile; for every method the frame on the wire must equal {method: '<interface>.<IDL name>', parameters: {IDL names: values of the declared shapes}}, a reply spelled with the IDL output names must decode and re-encode identically, every IDL error must come back as the method error and re-encode identically, every custom struct / enum value spelled as in the IDL must round-trip.",
+   "Trusted: the driver's coupling to codegen's Rust identifiers (heck snake / Pascal of the IDL names, r# for keywords, trailing underscore for self / super / crate) - identifiers are not part of the property, JSON spellings are. Values in scripted replies are escape-free strings. Comparisons are modulo null members.",
+   "§3 C15"),
  "C16": ("exploration", "corpus16",
    "generated-program testing: a seeded generator emits modules of structs / unit enums / error enums with the introspection derives (every entry of the Rust->Varlink mapping table, wrappers, collections, nested custom and inline types, lifetimes, raw-identifier fields, doc comments in both forms) plus the expected description; the corpus is compiled against /repo (diagnostics mapped to the generated module) and a runner dumps TYPE / CUSTOM_TYPE / VARIANTS through the public accessors and the render -> parse round trip of an interface assembled from them; oracle = expectation computed from the declaration by the harness's own mapping table; known-finding lanes with witness",
    "60 (thorough 500) generated modules, 5-6 derived items each: the derived descriptions must list exactly the declared fields / variants in order under their Rust names with the expected Varlink types and the doc texts as comments; the interface assembled from a module's descriptions must render to text that parses back equal (library == and deep compare) and re-renders to an equal description. Modules with a directly nested Option or a documented variant in a multi-variant unit enum are attributed to the two known findings for the round-trip part only.",
@@ -144,6 +149,9 @@ def main():
             {"name": "corpus12", "path": "harness/corp12",
              "serves_properties": ["C12"],
              "kind_free_text": "generated program corpus: vcheck's C12 generator writes proxy traits + a reporting runner into harness/corp12/gen-out, builds the crate with cargo (release profile, opt-level 0, shared target dir) against /repo and runs it; judging happens in vcheck"},
+            {"name": "corpus15", "path": "harness/corp15",
+             "serves_properties": ["C15"],
+             "kind_free_text": "generated program corpus for the code generator: IDL generator + driver generator in vcheck (c15.rs), zlink_codegen used as a library, runner crate harness/corp15 built with cargo against /repo, judged in vcheck"},
             {"name": "corpus16", "path": "harness/corp16",
              "serves_properties": ["C16"],
              "kind_free_text": "generated program corpus of introspection derives: generator in vcheck (c16.rs), runner crate harness/corp16 built with cargo against /repo, judged in vcheck"},
